@@ -721,7 +721,7 @@ impl XmlAttribute {
     pub fn empty(name: &str, context: &Context) -> error::Result<Rc<XmlItem>> {
         let xml = format!("{}=''", name);
         let (rest, tree) = xml_parser::attribute(xml.as_str())?;
-        if rest.is_empty() {
+        if rest.is_empty() && is_qname(name) {
             XmlAttribute::node(&tree, None, context)
         } else {
             Err(error::Error::InvalidData(name.to_string()))
@@ -965,18 +965,24 @@ impl XmlCData {
         XmlCData::node("", None, context)
     }
 
-    pub fn delete(&mut self, offset: usize, count: usize) {
-        self.data = delete_char_range(self.data.as_str(), offset, count);
+    pub fn delete(&mut self, offset: usize, count: usize) -> error::Result<()> {
+        let data = delete_char_range(self.data.as_str(), offset, count);
+        if Self::check(data.as_str())? {
+            self.data = data;
+            Ok(())
+        } else {
+            Err(error::Error::InvalidData(data))
+        }
+    }
+
+    fn check(value: &str) -> error::Result<bool> {
+        let new = format!("<![CDATA[{}]]>", value);
+        let (rest, _) = xml_parser::cdsect(new.as_str())?;
+        Ok(rest.is_empty())
     }
 
     pub fn insert(&mut self, offset: usize, data: &str) -> error::Result<()> {
-        fn check(value: &str) -> error::Result<bool> {
-            let new = format!("<![CDATA[{}]]>", value);
-            let (rest, _) = xml_parser::cdsect(new.as_str())?;
-            Ok(rest.is_empty())
-        }
-
-        self.data = insert_char_at(self.data.as_str(), offset, data, check)?;
+        self.data = insert_char_at(self.data.as_str(), offset, data, Self::check)?;
         Ok(())
     }
 
@@ -1194,18 +1200,24 @@ impl XmlComment {
         XmlComment::node("", None, context)
     }
 
-    pub fn delete(&mut self, offset: usize, count: usize) {
-        self.comment = delete_char_range(self.comment.as_str(), offset, count);
+    pub fn delete(&mut self, offset: usize, count: usize) -> error::Result<()> {
+        let comment = delete_char_range(self.comment.as_str(), offset, count);
+        if Self::check(comment.as_str())? {
+            self.comment = comment;
+            Ok(())
+        } else {
+            Err(error::Error::InvalidData(comment))
+        }
+    }
+
+    fn check(value: &str) -> error::Result<bool> {
+        let new = format!("<!--{}-->", value);
+        let (rest, _) = xml_parser::comment(new.as_str())?;
+        Ok(rest.is_empty())
     }
 
     pub fn insert(&mut self, offset: usize, comment: &str) -> error::Result<()> {
-        fn check(value: &str) -> error::Result<bool> {
-            let new = format!("<!--{}-->", value);
-            let (rest, _) = xml_parser::comment(new.as_str())?;
-            Ok(rest.is_empty())
-        }
-
-        self.comment = insert_char_at(self.comment.as_str(), offset, comment, check)?;
+        self.comment = insert_char_at(self.comment.as_str(), offset, comment, Self::check)?;
         Ok(())
     }
 
@@ -2343,7 +2355,7 @@ impl XmlElement {
     pub fn empty(name: &str, context: &Context) -> error::Result<Rc<XmlItem>> {
         let xml = format!("<{} />", name);
         let (rest, tree) = xml_parser::element(xml.as_str())?;
-        if rest.is_empty() {
+        if rest.is_empty() && is_qname(name) {
             XmlElement::node(&tree, None, context)
         } else {
             Err(error::Error::InvalidData(name.to_string()))
@@ -3462,7 +3474,7 @@ impl XmlProcessingInstruction {
     pub fn empty(target: &str, context: &Context) -> error::Result<Rc<XmlItem>> {
         let xml = format!("<?{}?>", target);
         let (rest, tree) = xml_parser::pi(xml.as_str())?;
-        if rest.is_empty() {
+        if rest.is_empty() && tree.target == target {
             Ok(XmlProcessingInstruction::node(&tree, None, context))
         } else {
             Err(error::Error::InvalidData(target.to_string()))
@@ -3560,17 +3572,23 @@ impl XmlText {
         XmlText::node("", None, context)
     }
 
-    pub fn delete(&mut self, offset: usize, count: usize) {
-        self.text = delete_char_range(self.text.as_str(), offset, count);
+    pub fn delete(&mut self, offset: usize, count: usize) -> error::Result<()> {
+        let text = delete_char_range(self.text.as_str(), offset, count);
+        if Self::check(text.as_str())? {
+            self.text = text;
+            Ok(())
+        } else {
+            Err(error::Error::InvalidData(text))
+        }
+    }
+
+    fn check(value: &str) -> error::Result<bool> {
+        let (rest, content) = xml_parser::content(value)?;
+        Ok(rest.is_empty() && content.children.is_empty())
     }
 
     pub fn insert(&mut self, offset: usize, text: &str) -> error::Result<()> {
-        fn check(value: &str) -> error::Result<bool> {
-            let (rest, content) = xml_parser::content(value)?;
-            Ok(rest.is_empty() && content.children.is_empty())
-        }
-
-        self.text = insert_char_at(self.text.as_str(), offset, text, check)?;
+        self.text = insert_char_at(self.text.as_str(), offset, text, Self::check)?;
         Ok(())
     }
 
@@ -4323,17 +4341,24 @@ where
         chars.len()
     };
 
-    if check(new)? {
-        let mut tail = chars.split_off(index);
-        let mut middle = new.chars().collect::<Vec<char>>();
+    let mut tail = chars.split_off(index);
+    let mut middle = new.chars().collect::<Vec<char>>();
 
-        chars.append(&mut middle);
-        chars.append(&mut tail);
+    chars.append(&mut middle);
+    chars.append(&mut tail);
 
-        Ok(chars.iter().collect())
+    // validate the whole result: two harmless pieces can combine to `--`, `]]>`, ...
+    let result = chars.iter().collect::<String>();
+    if check(result.as_str())? {
+        Ok(result)
     } else {
         Err(error::Error::InvalidData(new.to_string()))
     }
+}
+
+/// The whole of `name` is one QName (nothing such as ` a='b'` follows it).
+fn is_qname(name: &str) -> bool {
+    matches!(xml_nom::qname(name), Ok((rest, _)) if rest.is_empty())
 }
 
 fn node<T>(value: T) -> XmlNode<T> {
